@@ -103,6 +103,12 @@ func main() {
 	r := vlib.NewReport(cfg)
 	setEnvTable()
 	debug.SetGCPercent(600) // allocation-heavy parsing; the live heap is small
+	if cfg.Thorough() {
+		debug.SetGCPercent(200)
+		if cfg.BudgetS == 0 {
+			cfg.BudgetS = 1080 // soft time box of the thorough tier: 18 min of enumeration
+		}
+	}
 	thoroughAtoms = cfg.Thorough()
 	smallPool = !cfg.Thorough()
 
